@@ -288,7 +288,7 @@ def _check_one(m):
                 res["detected_by"] = res["detected_by"] or pid
                 res["rules"].append(f"{pid}.{sorted(new)[0][0]}")
         else:
-            res["errors"][pid] = str(status)[:160]
+            res["errors"][pid] = (str(status) + ": " + str(obs))[:200]
     return res
 
 
@@ -374,8 +374,28 @@ def cmd_report(res_path, tst_path=None):
     print("TOTAL", dict(tot))
 
 
+def cmd_recheck(mut_path, surv_path, pattern=""):
+    """Re-run the checks on the mutants listed in a survivors file (optionally only those whose function / file matches `pattern`)."""
+    srcs = {}
+    for l in open(mut_path):
+        m = json.loads(l)
+        srcs[m["id"]] = m
+    surv = json.load(open(surv_path))
+    todo = [srcs[r["id"]] for r in surv if pattern in r["func"] or pattern in r["file"]]
+    with mp.Pool(int(os.environ.get("MUT_JOBS", "12")), initializer=_init_worker) as pool:
+        out = pool.map(_check_one, todo, chunksize=2)
+    still = [r for r in out if not r["detected_by"]]
+    print(len(todo), "re-checked;", len(todo) - len(still), "now detected;", len(still), "still silent")
+    for r in sorted(still, key=lambda r: (r["file"], r["line"])):
+        print(f"  {r['file'].split('inference/')[-1]}:{r['line']} {r['func']} {r['op']:18s} {r['before'][:50]!r} -> {r['after'][:50]!r} {list(r['errors'].values())[:1]}")
+    return out
+
+
 if __name__ == "__main__":
     cmd = sys.argv[1]
+    if cmd == "recheck":
+        cmd_recheck(sys.argv[2], sys.argv[3], sys.argv[4] if len(sys.argv) > 4 else "")
+        sys.exit(0)
     if cmd == "gen":
         cmd_gen(sys.argv[2])
     elif cmd == "check":
